@@ -239,6 +239,9 @@ def instances(tier):
         if s <= (1 if not thorough else 2):
             # the full __call__: first stage solve reported as failed, the retry solved exactly - the ACCEPTED step must still not grow |y|
             out.append(dict(id="%s-call-retry-scalar" % n, cls=n, kind="call_retry", shape=[1], budget=bs))
+        first_row_zero = bool(np.all(np.asarray(cls.tableau_intermediate, dtype=np.float64)[0] == 0.0))
+        if s <= 2 or first_row_zero:
+            out.append(dict(id="%s-param-change-scalar" % n, cls=n, kind="param_change", shape=[1], budget=bs))
     return out
 
 
@@ -651,9 +654,74 @@ def _scn_call_retry(c, inst, d):
     c.check("c11.call.accepted_step_does_not_increase_modulus", c.le(y1 * y1, (1 + SLACK) * y[0] * y[0], 1), info=dict(cls=inst["cls"]))
 
 
+class ParamRhs:
+    """y' = lam*y with lam taken from the system's constants"""
+
+    def __call__(self, t, y, lam=None, **kw):
+        return lam * y
+
+    def jac(self, t, y, lam=None, **kw):
+        from srx import core
+        c = core.ctx() if core.have_ctx() else None
+        return c.array([[lam]]) if c is not None else np.array([[lam]])
+
+
+def _scn_param_change(c, inst, d):
+    """two consecutive real __call__s of ONE implicit integrator on y' = lam*y: the decay rate is changed (through the constants) between
+    the calls and the second call starts exactly where the first ended.  Both stage solves are exact roots of the real residual.  The second
+    accepted step must be the stability-function step of the NEW equation: in particular it must not increase |y| (h*lam_new <= 0)."""
+    import desolver.utilities.optimizer as opt
+    from checks.common import ctrl_stub
+    cls = _get_cls(inst["cls"])
+    t, h, lam0, lam1 = c.real("t"), c.real("h"), c.real("lam0"), c.real("lam1")
+    c.assume(h != 0)
+    c.assume(h * lam0 <= 0)
+    c.assume(h * lam1 <= 0)
+    y = c.array([c.real("y0")])
+    st, integ = run(_mk, c, cls, (1,))
+    if st != "ok":
+        c.check("c11.param.constructs", False, info=repr(integ))
+        return
+    integ.update_timestep = ctrl_stub(c, integ, fixed=1.0)
+    rhs = ParamRhs()
+    log = []
+    with patched(opt, "nonlinear_roots", exact_root_stub(c, log)):
+        st, r = run(integ, rhs, t, y, dict(lam=lam0), h)
+        if st != "ok":
+            c.check("c11.param.first_call_returns", False, info=repr(r))
+            return
+        for rr in log[-1]["res"]:
+            c.assume(c.eq(rr, 0, 64))
+        _, (dT, dY) = r
+        y1 = y + dY
+        y1c = y1[0]
+        n0 = len(log)
+        st, r = run(integ, rhs, t + dT, y1, dict(lam=lam1), h)
+    if st != "ok":
+        c.check("c11.param.second_call_returns", False, info=repr(r))
+        return
+    if len(log) == n0:
+        c.check("c11.param.second_call_solves_its_stage_equations", False)
+        return
+    for rr in log[-1]["res"]:
+        c.assume(c.eq(rr, 0, 64))
+    _, (dT2, dY2) = r
+    y2 = y1c + dY2[0]
+    c.case()
+    c.check("c11.param.step_after_parameter_change_does_not_increase_modulus", c.le(y2 * y2, (1 + SLACK) * y1c * y1c, 1), info=dict(cls=inst["cls"]))
+    # and it is the stability-function step of the new equation: Q(z)*y2 = P(z)*y1 with z = h*lam1
+    z = h * lam1
+    P = sum((_coef(c, k) * z ** i for i, k in enumerate(d["P"])), 0 * z) if "P" in d else None
+    Q = sum((_coef(c, k) * z ** i for i, k in enumerate(d["Q"])), 0 * z) if "Q" in d else None
+    if P is not None and Q is not None:
+        c.check("c11.param.step_after_parameter_change_is_R_of_new_z", c.eq(Q * y2, P * y1c, 64), info=dict(cls=inst["cls"]))
+
+
 def scenario(c, inst):
     d = _data(inst["cls"])
     kind = inst["kind"]
+    if kind == "param_change":
+        return _scn_param_change(c, inst, d)
     if kind == "call_retry":
         return _scn_call_retry(c, inst, d)
     if kind == "direct":
@@ -685,7 +753,7 @@ def replay(inst, witness, check_name):
     from srx.explorer import ConcreteCtx
     d = _data(inst["cls"])
     kind = inst["kind"]
-    if kind in ("step", "call_retry"):
+    if kind in ("step", "call_retry", "param_change"):
         cc = ConcreteCtx(witness)
         scenario(cc, inst)
         return dict(reproduced=check_name in cc.failed, failed=sorted(set(cc.failed)), notes={k: repr(v)[:300] for k, v in cc.notes.items()})
